@@ -507,6 +507,40 @@ func Cow(p *core.Prog, r *core.Report) {
 					}
 				}
 			}
+			// an invalid pattern is reported: on the err != nil side something is added to a result, or an error /
+			// validation failure is returned — a silent `continue` drops the keyword the pattern belongs to
+			// (part of C15's statement only; the cache-safety users of COW do not ask for it)
+			if cowInvalidReported {
+				reported := false
+				if errV != nil {
+					core.EachInstr(f, func(j ssa.Instruction) {
+						if reported || !errIsNonNilAt(j.Block(), errV) {
+							return
+						}
+						switch y := j.(type) {
+						case ssa.CallInstruction:
+							if h := core.StaticCallee(y); h != nil && (h.Name() == "AddErrors" || h.Name() == "AddWarnings") {
+								reported = true
+							}
+						case *ssa.Return:
+							for _, rv := range y.Results {
+								if k, isK := rv.(*ssa.Const); isK && k.Value == nil {
+									continue // nil
+								}
+								ts := rv.Type().String()
+								if ts == "error" || strings.HasSuffix(ts, "errors.Validation") {
+									reported = true
+								}
+							}
+						}
+					})
+				}
+				if reported {
+					r.OK(rule, site+":invalid-reported", p.Pos(c.Pos()), "a pattern that does not compile is reported on the error edge")
+				} else {
+					r.Bad(rule, site+":invalid-reported", p.Pos(c.Pos()), "a pattern that does not compile is dropped silently at this call site (nothing is added to a result and no error is returned on the err != nil edge): the keyword it belongs to is simply not enforced and the schema's defect is never reported")
+				}
+			}
 			if re == nil || len(core.Refs(re)) == 0 {
 				if errV == nil || len(core.Refs(errV)) == 0 {
 					r.Bad(rule, site+":ignored", p.Pos(c.Pos()), "both results of the compile call are ignored")
@@ -637,4 +671,13 @@ func errIsNilAt(b *ssa.BasicBlock, errV ssa.Value) bool {
 		}
 	}
 	return false
+}
+
+var cowInvalidReported bool
+
+// CowReporting is COW plus the clause "a pattern that does not compile is reported at every call site" (C15).
+func CowReporting(p *core.Prog, r *core.Report) {
+	cowInvalidReported = true
+	defer func() { cowInvalidReported = false }()
+	Cow(p, r)
 }
